@@ -348,7 +348,7 @@ int _vnacal_new_add_common(vnacal_new_add_arguments_t vnaa)
 
     case VNACAL_T16:
 	ptype = 'T';
-	min_b_rows    = s_rows;
+	min_b_rows    = MIN(s_rows, full_m_rows);
 	min_b_columns = full_m_columns;
 	break;
 
@@ -364,7 +364,7 @@ int _vnacal_new_add_common(vnacal_new_add_arguments_t vnaa)
     case VNACAL_U16:
 	ptype = 'U';
 	min_b_rows    = full_m_rows;
-	min_b_columns = s_columns;
+	min_b_columns = MIN(s_columns, full_m_columns);
 	break;
 
     case VNACAL_E12:
